@@ -87,6 +87,7 @@ QUICK_UNCOVERED = ["V-p3-ext"]     # needs an AddExt mutant (thorough only)
 SMALL_BASES = ["p2", "p3", "ed", "p2p2", "p3p2", "p2p3", "edp2", "p3p3", "p2pub", "p3pub"]
 RICH_BASES = ["R2", "R3", "RE"]
 OPT_BASES = ["O2", "O3", "OE"]
+SYN_BASES = ["U3", "U3x"]      # synthetic oneof naming; U3x is outside protoc-certain (C27 only, flagged per case)
 
 
 def runs(tier, pid):
@@ -103,13 +104,13 @@ def runs(tier, pid):
 
     if tier == "thorough":
         out = [
-            ("rich-mut", c(RICH_BASES + OPT_BASES, ["a"], 0, mutadds=SMALL_EDITS + ["AddExt", "AddOptExt"]), None, None, 1.0, 1.0),
+            ("rich-mut", c(RICH_BASES + OPT_BASES + SYN_BASES, ["a"], 0, mutadds=SMALL_EDITS + ["AddExt", "AddOptExt"]), None, None, 1.0, 1.0),
             ("small-1edit", c(SMALL_BASES, ["none", "a", "ab"], 1, mutmaxn=0), None, None, 1.0, 1.0),
-            ("rich-1edit", c(RICH_BASES + OPT_BASES, ["a"], 1, mutmaxn=0, muts=[], mutadds=[]), None, None,
+            ("rich-1edit", c(RICH_BASES + OPT_BASES + SYN_BASES, ["a"], 1, mutmaxn=0, muts=[], mutadds=[]), None, None,
              0.5 if slow else 1.0, 1.0),
             ("single-2edits", c(["p2", "p3", "ed"], ["a"], 2, mutmaxn=1, types=("a", "m"), flds=("zf", "z_f"),
                                 vals=("za",), exts=("zx",)), None, None, 0.3 if slow else 1.0, 0.3 if slow else 1.0),
-            ("sim-deep", c(SMALL_BASES + RICH_BASES + OPT_BASES, ["none", "a", "ab"], 5), 30, 7, 1.0, 1.0),
+            ("sim-deep", c(SMALL_BASES + RICH_BASES + OPT_BASES + SYN_BASES, ["none", "a", "ab"], 5), 30, 7, 1.0, 1.0),
         ]
         return out[1:] if pid == "C02" else out     # rich-mut without mutations is just the bases themselves
     k = vf.seed() % len(SMALL_BASES)
@@ -117,9 +118,9 @@ def runs(tier, pid):
     if pid == "C02":
         # valid workspaces only: two small bases (rotating with the seed) grown by one edit, plus the rich / option bases
         two = [SMALL_BASES[(k + i * 5) % len(SMALL_BASES)] for i in range(2)]
-        return [("rich+2small-1edit", c(RICH_BASES + OPT_BASES + two, ["a"], 1, grow=two), None, None, 1.0, 1.0)]
+        return [("rich+2small-1edit", c(RICH_BASES + OPT_BASES + SYN_BASES + two, ["a"], 1, grow=two), None, None, 1.0, 1.0)]
     return [
-        ("rich-mut+small", c(RICH_BASES + OPT_BASES + [sb], ["a"], 1, grow=[sb], mutbases=RICH_BASES + ["O2"],
+        ("rich-mut+small", c(RICH_BASES + OPT_BASES + SYN_BASES + [sb], ["a"], 1, grow=[sb], mutbases=RICH_BASES + ["O2"],
                              wide=["message", "enum", "service"]),
          None, None, 1.0, 0.6 if slow else 1.0),
     ]
